@@ -72,11 +72,21 @@ Fixpoint h_add (k v : string) (h : header) : header :=
   | (k', vs) :: r => if String.eqb k k' then (k', (vs ++ [v])%list) :: r else (k', vs) :: h_add k v r
   end.
 
-Definition h_set (k v : string) (h : header) : header := (h_del k h ++ [(k, [v])])%list.
+(** [h[k] = vs] *)
+Definition h_set_all (k : string) (vs : list string) (h : header) : header := (h_del k h ++ [(k, vs)])%list.
+
+Definition h_set (k v : string) (h : header) : header := h_set_all k [v] h.
 
 (** the field lines of a message, read by net/textproto *)
 Definition parse_headers (lines : list (string * string)) : header :=
   fold_left (fun h l => h_add (canon_key (fst l)) (snd l) h) lines [].
+
+(** the values of all field lines whose name spells [k], in order *)
+Fixpoint line_values (k : string) (lines : list (string * string)) : list string :=
+  match lines with
+  | [] => []
+  | (n, v) :: r => if String.eqb (canon_key n) k then v :: line_values k r else line_values k r
+  end.
 
 (** sorted by key, as the upstream test server reports them *)
 Fixpoint h_insert (e : string * list string) (h : header) : header :=
@@ -139,11 +149,14 @@ Record rule := {
 }.
 
 (** which repairs the modelled tree contains: C08-F2 (case-insensitive %2f
-    under `off`, owned by C08) and C15-F1 *)
-Record fixes := { fx_c08f2 : bool; fx_f1 : bool }.
-Definition pinned : fixes := {| fx_c08f2 := false; fx_f1 := false |}.
-(** the tree as it is now: C08-F2 repaired by a779db8 *)
-Definition current : fixes := {| fx_c08f2 := true; fx_f1 := false |}.
+    under `off`, owned by C08), C13-F3 (all values of a pipeline header are
+    handed over, owned by C13) and C15-F1 *)
+Record fixes := { fx_c08f2 : bool; fx_c13f3 : bool; fx_f1 : bool; fx_f4 : bool }.
+Definition pinned : fixes := {| fx_c08f2 := false; fx_c13f3 := false; fx_f1 := false; fx_f4 := false |}.
+(** the tree as it is now: C08-F2 repaired by a779db8, C13-F3 by a5ef279 *)
+Definition current : fixes := {| fx_c08f2 := true; fx_c13f3 := true; fx_f1 := false; fx_f4 := false |}.
+(** ... with the repair candidates fixes/C15-F1.diff and fixes/C15-F4.diff *)
+Definition repaired : fixes := {| fx_c08f2 := true; fx_c13f3 := true; fx_f1 := true; fx_f4 := true |}.
 
 (** * what heimdall sees *)
 
@@ -193,12 +206,12 @@ Definition has_enc_slash (ci : bool) (p : string) : bool :=
 (** [None]: ErrArgument "path contains encoded slash" *)
 Definition execute (fx : fixes) (r : rule) (u : hurl) : option hurl :=
   match r_setting r with
-  | On => Some (create_url (r_backend r)
+  | On => Some (create_url_fx (fx_f1 fx) (r_backend r)
                   {| u_scheme := u_scheme u; u_host := u_host u; u_path := u_path u;
                      u_rawpath := EmptyString; u_query := u_query u |})
   | Off => if has_enc_slash (fx_c08f2 fx) (u_rawpath u) then None
-           else Some (create_url (r_backend r) u)
-  | NoDecode => Some (create_url (r_backend r) u)
+           else Some (create_url_fx (fx_f1 fx) (r_backend r) u)
+  | NoDecode => Some (create_url_fx (fx_f1 fx) (r_backend r) u)
   end.
 
 (** * httputil.ReverseProxy before Rewrite *)
@@ -225,9 +238,10 @@ Definition strip_forwarding (h : header) : header :=
 Definition upstream_headers (pl : pipeline) : header :=
   fold_left (fun h l => h_add (canon_key (fst l)) (snd l) h) (p_headers pl) [].
 
-(** [for k := range uh { Out.Header.Set(k, uh.Get(k)) }] *)
-Definition set_pipeline_headers (uh : header) (h : header) : header :=
-  fold_left (fun h e => h_set (fst e) (first_or_empty (snd e)) h) uh h.
+(** [for k, values := range uh { Out.Header[k] = slices.Clone(values) }];
+    before a5ef279: [for k := range uh { Out.Header.Set(k, uh.Get(k)) }] *)
+Definition set_pipeline_headers (all : bool) (uh : header) (h : header) : header :=
+  fold_left (fun h e => h_set_all (fst e) (if all then snd e else [first_or_empty (snd e)]) h) uh h.
 
 (** Request.AddCookie with a name and value that need no sanitising *)
 Definition add_cookie (h : header) (c : string * string) : header :=
@@ -264,17 +278,19 @@ Definition forwarded_block (hin : header) (in_host peer : string) (h : header) :
                        else fwd ++ ", " ++ forwarded_element peer in_host proto) h.
 
 (** the outgoing header map and Host after ReverseProxy's preparation and heimdall's Rewrite hook *)
-Definition rewrite_request (q : request) (pl : pipeline) (target_host : string) : string * header :=
+Definition rewrite_request (fx : fixes) (q : request) (pl : pipeline) (target_host : string) : string * header :=
   let hin := in_headers q in
   let h := strip_forwarding (remove_hop_by_hop hin) in
   let h := h_del_all ["X-Forwarded-Method"; "X-Forwarded-Uri"; "X-Forwarded-Path"] h in
+  (* with fixes/C15-F4.diff the forwarded-header block runs before the pipeline's headers are applied *)
+  let h := if fx_f4 fx then forwarded_block hin (q_host q) (q_peer q) h else h in
   let uh := upstream_headers pl in
-  let h := set_pipeline_headers uh h in
+  let h := set_pipeline_headers (fx_c13f3 fx) uh h in
   let ph := h_get "Host" uh in
   let out_host := if is_empty ph then target_host else ph in
   let h := if is_empty ph then h else h_del "Host" h in
   let h := fold_left add_cookie (sort_cookies (p_cookies pl)) h in
-  (out_host, forwarded_block hin (q_host q) (q_peer q) h).
+  (out_host, if fx_f4 fx then h else forwarded_block hin (q_host q) (q_peer q) h).
 
 (** * http.Transport *)
 
@@ -305,7 +321,7 @@ Definition serve (fx : fixes) (q : request) (pl : pipeline) (r : rule) : outcome
       if negb (String.eqb (u_scheme t) "http" || tls_wanted) then NotForwarded 502
       else if negb (Bool.eqb tls_wanted (r_up_tls r)) then NotForwarded 502
       else
-        let '(host, h) := rewrite_request q pl (u_host t) in
+        let '(host, h) := rewrite_request fx q pl (u_host t) in
         let m := view_method q in
         Forwarded tls_wanted m (wire_uri t) host (h_sort (on_the_wire m h)) (q_body q)
     end
